@@ -444,7 +444,8 @@ def swapAndSave (st : WState) (inputs : List WProof) (outs : List Output) (sigAl
 /-- oracles of `Receive` -/
 structure ReceiveOracle where
   dleqOk : Bool := true          -- nut12.VerifyProofsDLEQ
-  p2pk : Bool := false           -- first secret is a NUT-10 P2PK secret the wallet can sign for
+  p2pk : Bool := false           -- first secret is a NUT-10 P2PK secret
+  canSign : Bool := true         -- nut11.CanSign: the lock's public key is the wallet's
   sigAll : Bool := false         -- SIG_ALL flag
   swapToTrusted : Bool := false  -- after the "already default mint" override
   outs : List Output := []       -- createSwapRequest's outputs (split of amount - fees from the counter)
@@ -456,6 +457,7 @@ structure ReceiveOracle where
     serialised them: with or without `dleq{e,s,r}`. -/
 def receive (st : WState) (token : List WProof) (o : ReceiveOracle) : Run Nat :=
   if !o.dleqOk then { reqs := [], st := st, ret := none } else
+  if o.p2pk && !o.canSign then { reqs := [], st := st, ret := none } else
   let proofsToSwap := if o.p2pk then addWitnessToInputs token else token
   if o.swapToTrusted then
     if o.p2pk && o.sigAll then
